@@ -246,17 +246,25 @@ func addModuleSentinel(ctx context.Context, rootPath string) (err error) {
 		return err
 	}
 	var sentinelLocation string
+	dir := ModuleDir
 	if isImportModule(ctx) {
 		sentinelLocation, err = createModulePath(ctx, rootPath)
 		if err != nil {
 			return err
 		}
 	} else {
-		rootPath = strings.TrimPrefix(rootPath, fromBundleConfig(ctx).absRootPath)
-		sentinelLocation = path.Join(fromBundleConfig(ctx).mainRoot, rootPath)
+		config := fromBundleConfig(ctx)
+		rootPath = strings.TrimPrefix(rootPath, config.absRootPath)
+		if config.mainRoot == "" {
+			// the main script has no module: its files are bundled under NoModuleDir (see
+			// bundleLocalFile), so the sentinel of a root below it has to go there too,
+			// otherwise the bundled scripts cannot find their root.
+			dir = NoModuleDir
+		}
+		sentinelLocation = path.Join(config.mainRoot, rootPath)
 	}
 
-	pathInBundle := path.Join(ModuleDir, sentinelLocation)
+	pathInBundle := path.Join(dir, sentinelLocation)
 	if exists, err := ctxfs.FileExists(ctx, bundleFsKey, pathInBundle); err != nil {
 		return err
 	} else if exists {
